@@ -103,3 +103,36 @@ class Driver:
             except Exception:
                 self.p.kill()
             self.p = None
+
+
+class DualDriver:
+    """sends every request to the dev-profile (debug assertions + overflow checks) and the release build and records any
+    request whose replies differ (C18)"""
+    profile = 'debug+release'
+
+    def __init__(self):
+        self.a = Driver('debug')
+        self.b = Driver('release')
+        self.diffs = []
+        self.calls = 0
+
+    def call(self, fn, *args):
+        ra = self.a.call(fn, *args)
+        rb = self.b.call(fn, *args)
+        self.calls += 1
+        if ra != rb:
+            self.diffs.append((fn, list(args), ra, rb))
+        return ra
+
+    def batch(self, reqs):
+        ra = self.a.batch(reqs)
+        rb = self.b.batch(reqs)
+        self.calls += len(reqs)
+        for rq, x, y in zip(reqs, ra, rb):
+            if x != y and len(self.diffs) < 50:
+                self.diffs.append((rq[0], list(rq[1]), x, y))
+        return ra
+
+    def close(self):
+        self.a.close()
+        self.b.close()
